@@ -46,14 +46,21 @@ def one_case(chk, s, rng, c, api="blocking"):
             chk.violation("no-request:extend:async", "the extending async service did not send the request", dict(case=c, log=s.log[-10:])); return
     else:
         out = s.cmd("EXTEND " + cmd)
-        sent = [l for l in out if l.startswith("E send")]
-    if api != "async" and (not out or not out[-1].startswith("Q recv")):
+        sent = [l for l in out if l.startswith("E send" if api == "blocking" else "E http")]
+    if api != "async" and (not out or not out[-1].startswith("Q recv" if api == "blocking" else "Q http")):
         r = [l for l in out if l.startswith("R extend")]
         ok = bool(r) and " rc=0x0 " in r[0] + " "
         if c["result"] == "success" or ok:
             chk.violation("no-request:extend:%s" % t, "extend (target %s) did not wait for a reply: %s" % (t, [x[:120] for x in out]), dict(case=c, log=s.log[-15:]))
         return
-    raw = b"".join(bytes.fromhex(l.split("data=")[1]) for l in sent)
+    if api == "http":
+        f0 = dict(x.split("=", 1) for x in sent[-1].split()[2:])
+        raw = bytes.fromhex(f0["post"]) if f0.get("post", "-") != "-" else b""
+        url = bytes.fromhex(f0["url"]).decode("latin1")
+        if not url.startswith("http://h1.example:8081/"):
+            chk.violation("request:http-url", "URL handed to the HTTP transport for extending: %r" % url, dict(log=s.log[-10:]))
+    else:
+        raw = b"".join(bytes.fromhex(l.split("data=")[1]) for l in sent)
     f = wire.request_fields(raw)
     bad = []
     if f["tag"] != 0x0320: bad.append("PDU tag %x" % f["tag"])
@@ -83,6 +90,15 @@ def one_case(chk, s, rng, c, api="blocking"):
         f2 = dict(x.split("=", 1) for x in r.split()[2:] if "=" in x)
         ok = f2.get("state") == "3" and f2.get("xsig") == "0x0"
         f2.setdefault("src", "same")          # a request completed with an error never touched the source
+    elif api == "http":
+        if reply is None:
+            s.cmd("HTTPERR %d" % rng.choice([7, 28, 52, 56]))
+        else:
+            s.cmd("HTTP 200 %s %d" % (reply.hex(), rng.choice([0, 1, 7, 100])))
+        out = s.cmd("GO")
+        r = [l for l in out if l.startswith("R extend")][0]
+        ok = " rc=0x0 " in r + " "
+        f2 = dict(x.split("=", 1) for x in r.split()[2:] if "=" in x)
     else:
         if reply is None:
             s.cmd("EP 1"); s.cmd("PEERCLOSE")
@@ -96,11 +112,11 @@ def one_case(chk, s, rng, c, api="blocking"):
         f2 = dict(x.split("=", 1) for x in r.split()[2:] if "=" in x)
     exp = c["result"] == "success"
     diff = sorted(k for k, v in a.items() if wire_good().get(k) != v)
-    shape = "%s%s:oldcal=%s:%s" % ("async:" if api == "async" else "", t, req["oldcal"], req["oldanchor"])
+    shape = "%s%s:oldcal=%s:%s" % ("" if api == "blocking" else api + ":", t, req["oldcal"], req["oldanchor"])
     if f2.get("src") != "same":
         chk.violation("source-modified:" + shape, "the source signature's serialization changed during extending (%s)" % r[:120], dict(case=c, log=s.log[-15:]))
     if ok and not exp:
-        chk.violation("accepted:extend:%s%s" % ("async:" if api == "async" else "", "+".join(diff or ["target-" + t])), "extending SUCCEEDED although the reply deviates in %s (%s), target %s" % (diff, {k: a[k] for k in diff}, t), dict(case=c, log=s.log[-20:]))
+        chk.violation("accepted:extend:%s%s" % ("" if api == "blocking" else api + ":", "+".join(diff or ["target-" + t])), "extending SUCCEEDED although the reply deviates in %s (%s), target %s" % (diff, {k: a[k] for k in diff}, t), dict(case=c, log=s.log[-20:]))
     elif not ok and exp:
         chk.violation("rejected-honest:extend:" + shape, "extending FAILED on an honest reply (%s): %s" % (shape, r[:160]), dict(case=c, log=s.log[-20:]))
     elif ok:
@@ -170,6 +186,10 @@ def run(chk, tier, seed):
         for c in cases_run:
             if c["req"].get("api") == "async":
                 one_case(chk, s, rng, c, api="async"); n += 1
+        s.cmd("HNEW")
+        for c in cases_run:
+            if c["req"].get("api") == "http":
+                one_case(chk, s, rng, c, api="http"); n += 1
     except netsim.Died as e:
         chk.violation("crash:extend", "libksi crashed/aborted during an extending call\n%s" % str(e)[-2500:], dict(log=s.log[-40:]))
         s = None
